@@ -148,6 +148,7 @@ MiscFails(e) ==
 Fails(e) == CASE e.ev = "bandcfg" -> CfgFails(e)
               [] e.ev = "bandmisc" -> MiscFails(e)
               [] e.ev = "pingslot" -> PingFails(e)
+              [] e.ev = "hang" -> <<e.prop \o ".hang">>    \* a call that never returned (recorded by the watchdog of the harness)
               [] OTHER -> <<"unknown-event">>
 
 Init == l = 1 /\ nfail = 0
